@@ -13,13 +13,17 @@
 (*               shortcut (count = d * ticks per day at midnight) agrees with SplitSeconds.                    *)
 EXTENDS Chrono
 
-CONSTANTS YLO, YHI, PP
+CONSTANTS YLO, YHI, PP,
+          NEG      \* TRUE: the year range is -YLO .. -YHI (TLC configuration files cannot hold negative numbers)
+
+YearLo == IF NEG THEN 0 - YLO ELSE YLO
+YearHi == IF NEG THEN 0 - YHI ELSE YHI
 
 VARIABLES d, civ
 vars == <<d, civ>>
 
-Init == \E y \in YLO..YHI : civ = [y |-> y, m |-> 1, d |-> 1] /\ d = DaysFromCivil(y, 1, 1)
-Step == civ.y <= YHI /\ d' = d + 1 /\ civ' = NextDay(civ)
+Init == \E y \in YearLo..YearHi : civ = [y |-> y, m |-> 1, d |-> 1] /\ d = DaysFromCivil(y, 1, 1)
+Step == civ.y <= YearHi /\ d' = d + 1 /\ civ' = NextDay(civ)
 Next == Step
 Spec == Init /\ [][Next]_vars
 
@@ -33,8 +37,8 @@ PerDay(u) == CASE u = "d" -> <<>> [] u = "h" -> <<24>> [] u = "min" -> <<1440>> 
                [] u = "ms" -> <<86400, 1000>> [] u = "us" -> <<86400, 1000, 1000>> [] OTHER -> <<86400, 1000, 1000, 1000>>
 \* a time of day (in ticks of u) that depends on the day: exercises every field
 TodTicks(u) ==
-  LET sod == (d * 7919) % 86400
-      fr  == (d * 104729) % 1000 IN
+  LET sod == ((d % 86400) * 7919) % 86400
+      fr  == ((d % 1000) * 729) % 1000 IN
   CASE u = "d" -> Zero [] u = "h" -> FromInt(sod \div 3600) [] u = "min" -> FromInt(sod \div 60) [] u = "s" -> FromInt(sod)
     [] u = "ms" -> AddSmall(MulSmall(FromInt(sod), 1000), fr)
     [] u = "us" -> AddSmall(MulChain(FromInt(sod), <<1000, 1000>>), fr * 1000 + 7)
